@@ -3,7 +3,7 @@ cooperative scheduler, call-back budget, result packaging."""
 import hashlib
 import json
 
-from .core import Scheduler, Inconclusive, Violation, HarnessError, load_script
+from .core import Scheduler, Inconclusive, Violation, HarnessError, InjectedAbort, load_script
 from . import runner
 
 _known_cache = None
@@ -45,6 +45,24 @@ class RunCtx:
             self.last = ('succ', ids[0], ids[1])
         for h in self.cb_hooks:
             h(name, ids)
+
+    def abort_after(self, k):
+        """Fault F6: the k-th model call-back from now raises InjectedAbort (once)."""
+        box = dict(n=0)
+
+        def hook(name, ids):
+            box['n'] += 1
+            if box['n'] == k:
+                self.cb_hooks.remove(hook)
+                if self.sched is not None:
+                    self.sched.fire('F6_abort_and_rerun')
+                raise InjectedAbort()
+        self.cb_hooks.append(hook)
+        return hook
+
+    def disarm(self, hook):
+        if hook in self.cb_hooks:
+            self.cb_hooks.remove(hook)
 
     def probe(self, name, k=1):
         self.probes[name] = self.probes.get(name, 0) + k
